@@ -18,7 +18,7 @@ regenerated from the Go sources on every run).
 | `(*DataTypeService).Set` (`types.go`), the arguments of its `db.Put` | `Set_put`   | `encodeStr` (in `set`) | `trans_Set_put_eq` |
 | `(*DataTypeService).Get` (`types.go`), behind its `db.Get`           | `Get`       | `get`                  | `trans_Get_eq` |
 
-Ranges.  The receiver's fields are separate arguments of the generated definitions.  `expire` / `version`
+Ranges.  The receiver's fields are separate arguments of the generated definitions, in the declaration order of the struct.  `expire` / `version`
 are Go `int64`s; the model keeps them as `Nat`, so they are compared on `0 ≤ · < 2^63`; `size < 2^32`,
 `head`, `tail`, `index < 2^64` are the field types; byte-string lengths are `< 2^60` (Go: `len` is an `int`,
 and the buffer length `len(key)+len(field)+8(+4)` must not wrap — far beyond any real slice), the member
@@ -133,7 +133,7 @@ macro "pre_side" : tactic => `(tactic| first
 /-- `(*hashInternalKey).encode` = `hashKey` -/
 theorem trans_hashInternalKey_encode_eq (key field : ByteArray) (version : Nat)
     (hk : key.size < 2^60) (hf : field.size < 2^60) (hv : version < 2^63) :
-    datatype.hashInternalKey_encode key field (version : Int) = Datatype.hashKey key version field := by
+    datatype.hashInternalKey_encode key (version : Int) field = Datatype.hashKey key version field := by
   have hP : Datatype.hashKey key version field
       = ((ByteArray.empty ++ key) ++ le64bytes ((version : Int) % 2^64).toNat) ++ field := by
     rw [le64bytes_eq, Datatype.hashKey, Datatype.ikey, ByteArray.empty_append]
@@ -149,7 +149,7 @@ theorem trans_hashInternalKey_encode_eq (key field : ByteArray) (version : Nat)
 /-- `(*zsetInternalKey).encodeWithMember` = `zmemKey` -/
 theorem trans_zsetInternalKey_encodeWithMember_eq (key member : ByteArray) (version : Nat)
     (hk : key.size < 2^60) (hm : member.size < 2^60) (hv : version < 2^63) :
-    datatype.zsetInternalKey_encodeWithMember key member (version : Int) = Datatype.zmemKey key version member := by
+    datatype.zsetInternalKey_encodeWithMember key (version : Int) member = Datatype.zmemKey key version member := by
   have hP : Datatype.zmemKey key version member
       = ((ByteArray.empty ++ key) ++ le64bytes ((version : Int) % 2^64).toNat) ++ member := by
     rw [le64bytes_eq, Datatype.zmemKey, Datatype.ikey, ByteArray.empty_append]
@@ -181,7 +181,7 @@ theorem trans_listInternalKey_encode_eq (key : ByteArray) (version index : Nat)
 /-- `(*setInternalKey).encode` = `setKey` -/
 theorem trans_setInternalKey_encode_eq (key member : ByteArray) (version : Nat)
     (hk : key.size < 2^60) (hm : member.size < 2^60) (hv : version < 2^63) :
-    datatype.setInternalKey_encode key member (version : Int) = Datatype.setKey key version member := by
+    datatype.setInternalKey_encode key (version : Int) member = Datatype.setKey key version member := by
   have hP : Datatype.setKey key version member
       = (((ByteArray.empty ++ key) ++ le64bytes ((version : Int) % 2^64).toNat) ++ member)
           ++ le32bytes ((member.size : Int) % 2^32).toNat := by
@@ -201,7 +201,7 @@ theorem trans_setInternalKey_encode_eq (key member : ByteArray) (version : Nat)
     `utils.Float64ToBytes(zk.score)` -/
 theorem trans_zsetInternalKey_encodeWithScore_eq (score key member : ByteArray) (version : Nat)
     (hs : score.size < 2^60) (hk : key.size < 2^60) (hm : member.size < 2^60) (hv : version < 2^63) :
-    datatype.zsetInternalKey_encodeWithScore score key member (version : Int)
+    datatype.zsetInternalKey_encodeWithScore score key (version : Int) member
       = Datatype.zscoreKey key version score member := by
   have hP : Datatype.zscoreKey key version score member
       = ((((ByteArray.empty ++ key) ++ le64bytes ((version : Int) % 2^64).toNat) ++ score) ++ member)
@@ -479,19 +479,19 @@ theorem Varint_len (b : ByteArray) : (binary_Varint b).2 = Datatype.uvarintLen b
 
 /-! ## concrete instances -/
 
-example : datatype.hashInternalKey_encode ⟨#[0x6b, 0x31]⟩ ⟨#[0x66]⟩ 5 = Datatype.hashKey ⟨#[0x6b, 0x31]⟩ 5 ⟨#[0x66]⟩ :=
+example : datatype.hashInternalKey_encode ⟨#[0x6b, 0x31]⟩ 5 ⟨#[0x66]⟩ = Datatype.hashKey ⟨#[0x6b, 0x31]⟩ 5 ⟨#[0x66]⟩ :=
   trans_hashInternalKey_encode_eq ⟨#[0x6b, 0x31]⟩ ⟨#[0x66]⟩ 5 (by decide) (by decide) (by decide)
 example : Datatype.hashKey ⟨#[0x6b, 0x31]⟩ 5 ⟨#[0x66]⟩ = ⟨#[0x6b, 0x31, 5, 0, 0, 0, 0, 0, 0, 0, 0x66]⟩ := by decide
-example : datatype.setInternalKey_encode ⟨#[0x6b]⟩ ⟨#[0x61, 0x62]⟩ 258
+example : datatype.setInternalKey_encode ⟨#[0x6b]⟩ 258 ⟨#[0x61, 0x62]⟩
     = ⟨#[0x6b, 2, 1, 0, 0, 0, 0, 0, 0, 0x61, 0x62, 2, 0, 0, 0]⟩ :=
   (trans_setInternalKey_encode_eq ⟨#[0x6b]⟩ ⟨#[0x61, 0x62]⟩ 258 (by decide) (by decide) (by decide)).trans (by decide)
 example : datatype.listInternalKey_encode ⟨#[0x6b]⟩ 1 Datatype.initialListMark
     = ⟨#[0x6b, 1, 0, 0, 0, 0, 0, 0, 0, 0xff, 0xff, 0xff, 0xff, 0xff, 0xff, 0xff, 0x7f]⟩ :=
   (trans_listInternalKey_encode_eq ⟨#[0x6b]⟩ 1 _ (by decide) (by decide)).trans (by decide)
-example : datatype.zsetInternalKey_encodeWithMember ⟨#[0x6b]⟩ ⟨#[0x61]⟩ 7 = ⟨#[0x6b, 7, 0, 0, 0, 0, 0, 0, 0, 0x61]⟩ :=
+example : datatype.zsetInternalKey_encodeWithMember ⟨#[0x6b]⟩ 7 ⟨#[0x61]⟩ = ⟨#[0x6b, 7, 0, 0, 0, 0, 0, 0, 0, 0x61]⟩ :=
   (trans_zsetInternalKey_encodeWithMember_eq ⟨#[0x6b]⟩ ⟨#[0x61]⟩ 7 (by decide) (by decide) (by decide)).trans (by decide)
 /-- score text "1.5" -/
-example : datatype.zsetInternalKey_encodeWithScore ⟨#[0x31, 0x2e, 0x35]⟩ ⟨#[0x6b]⟩ ⟨#[0x61]⟩ 7
+example : datatype.zsetInternalKey_encodeWithScore ⟨#[0x31, 0x2e, 0x35]⟩ ⟨#[0x6b]⟩ 7 ⟨#[0x61]⟩
     = ⟨#[0x6b, 7, 0, 0, 0, 0, 0, 0, 0, 0x31, 0x2e, 0x35, 0x61, 1, 0, 0, 0]⟩ :=
   (trans_zsetInternalKey_encodeWithScore_eq ⟨#[0x31, 0x2e, 0x35]⟩ ⟨#[0x6b]⟩ ⟨#[0x61]⟩ 7 (by decide) (by decide)
     (by decide) (by decide)).trans (by decide)
